@@ -157,6 +157,44 @@ func (p c11) check(idx, sti int, rc Recipe, st State, rep *runner.Reporter) {
 				viol := func(sig, what string) {
 					rep.Violation(&runner.Witness{Sig: sig, What: what, Unit: unitJSON, Files: filesOf(ws), Query: q.String()})
 				}
+				// a self.* origin names a declaration of the enclosing block: the one whose
+				// absolute address is the block's address followed by the steps behind self
+				if b == or.Start.Byte && len(addr) > 1 && addr[0].String() == "self" && r.Err == nil {
+					for _, blk := range flat[path] {
+						if len(blk.LocalAddr) != 1 || blk.LocalAddr[0].String() != "self" || len(blk.Addr) == 0 || blk.TargetableFromRangePtr == nil || !rangeWithin(or, *blk.TargetableFromRangePtr) {
+							continue
+						}
+						wantAbs := append(append(lang.Address{}, blk.Addr...), addr[1:]...)
+						for _, d := range flat[path] {
+							// (only declarations that belong to a self-referable block carry a local
+							// address at all; others of the same absolute address - declared by a
+							// Reference constraint with an Address - are not reachable through self)
+							// (and only those written in this very block: another block may carry the same address)
+							if d.RangePtr == nil || len(d.LocalAddr) == 0 || !rangeWithin(*d.RangePtr, *blk.TargetableFromRangePtr) || len(d.Addr) != len(wantAbs) || !addrEqualSteps(d.Addr, wantAbs) {
+								continue
+							}
+							fits := false
+							for _, oc := range mo.OriginConstraints() {
+								if (oc.OfScopeId == "" || oc.OfScopeId == d.ScopeId) && (oc.OfType == cty.DynamicPseudoType || (oc.OfType != cty.NilType && d.Type != cty.NilType && oc.OfType.Equals(d.Type))) {
+									fits = true
+								}
+							}
+							if !fits {
+								continue
+							}
+							rep.Count("self_origins_with_named_declaration", 1)
+							reached := false
+							for _, rt := range rts {
+								if rt.Range == *d.RangePtr {
+									reached = true
+								}
+							}
+							if !reached {
+								viol("LOOKUP self-origin-does-not-reach-the-declaration-it-names", fmt.Sprintf("go-to-definition at %s (%s) does not report the declaration %s at %s, which is the enclosing block's address followed by the steps behind self", addr, fmtRange(or), d.Addr, fmtRange(*d.RangePtr)))
+							}
+						}
+					}
+				}
 				// the lookup is asked at a byte of a collected origin: it must find that origin
 				if _, notFound := r.Err.(*reference.NoOriginFound); notFound {
 					viol("LOOKUP origin-not-found-at-its-own-position kind="+kind, fmt.Sprintf("go-to-definition at byte %d of the collected origin %s (%s) answers that there is no origin", b, addr, fmtRange(or)))
@@ -166,7 +204,7 @@ func (p c11) check(idx, sti int, rc Recipe, st State, rep *runner.Reporter) {
 						continue
 					}
 					// which origin of this range explains the reported declaration?
-					okAddr, okLocal, okPath := false, false, false
+					okAddr, okLocal, okPath, okAbsOnly := false, false, false, false
 					for _, cand := range sameRange[or] {
 						cAddr := cand.Address()
 						cPath := path
@@ -186,6 +224,12 @@ func (p c11) check(idx, sti int, rc Recipe, st State, rep *runner.Reporter) {
 							}
 							if len(t.Addr) > 0 && addrEqualSteps(t.Addr, cAddr) {
 								okAddr = true
+								if len(t.LocalAddr) == 0 {
+									// a declaration that is absolute only (e.g. the value of an attribute
+									// whose Reference constraint declares the written address) answers for
+									// that address everywhere, also if it happens to read count.index
+									okAbsOnly = true
+								}
 							}
 							// a dynamically typed declaration also answers for unknown nested paths
 							if len(t.Addr) > 0 && len(cAddr) > len(t.Addr) && t.Type == cty.DynamicPseudoType && addrEqualSteps(lang.Address(cAddr[:len(t.Addr)]), t.Addr) {
@@ -206,7 +250,7 @@ func (p c11) check(idx, sti int, rc Recipe, st State, rep *runner.Reporter) {
 						continue
 					}
 					if kind == "block-local-name" {
-						if !okLocal {
+						if !okLocal && !okAbsOnly {
 							viol("RESOLVE block-local-name-across-blocks", fmt.Sprintf("block-local name %s at %s resolved to %s which is not a local declaration visible from there", addr, fmtRange(or), fmtRange(rt.Range)))
 						}
 					} else if !okAddr && !okLocal {
@@ -232,7 +276,7 @@ func (p c11) check(idx, sti int, rc Recipe, st State, rep *runner.Reporter) {
 							continue
 						}
 						rep.Mark(idx, sti, b, db)
-					fr := env.Run(core.Query{Kind: core.QFindRefs, Path: rt.Path.Path, File: rt.DefRangePtr.Filename, Pos: dpos})
+						fr := env.Run(core.Query{Kind: core.QFindRefs, Path: rt.Path.Path, File: rt.DefRangePtr.Filename, Pos: dpos})
 						rep.Eval(1)
 						ros, _ := fr.Value.(decoder.ReferenceOrigins)
 						found := false
